@@ -29,9 +29,9 @@ struct C06Options
 {
     bool allowIds = false; // give library components XML ids (flattening one twice duplicates them)
     int maxOps = 5;
-    unsigned keptChildrenPct = 8; // how often children of a cut root may stay in the importing model, below the import element
+    unsigned keptChildrenPct = 50; // how often children of a cut root may stay in the importing model, below the import element
     bool libsParsed = false; // the library models will be parsed from files (import elements then have no variables of their own)
-    unsigned chainGapPct = 4; // how often the shapes of known findings are NOT excluded by construction
+    unsigned chainGapPct = 50; // how often each of the shapes behind the (repaired) findings of notes/C06.md is allowed in a case
 };
 
 struct C06Forest
